@@ -22,7 +22,7 @@ theorem addLocation_vids (st : St) (vid : Nat) (loc : Loc) (v : Nat) :
   cases h : st.vids vid <;> simp
 
 theorem deleteLocation_vids (st : St) (vid : Nat) (u : String) (v : Nat) :
-    (deleteLocation st vid u).vids v = if v = vid then (st.vids vid).map (fun c => c.del u) else st.vids v := by
+    (deleteLocation st vid u).vids v = if v = vid then (st.vids vid).map (fun c => (c.del u).1) else st.vids v := by
   unfold deleteLocation
   cases h : st.vids vid with
   | none => by_cases hv : v = vid <;> simp [hv, h]
@@ -166,21 +166,40 @@ theorem lookup_urls_exact (dc : String) (l : List Loc) (u : String) :
 
 /-! ### readers that keep a returned slice
 
-FULL-STRENGTH statement "a slice returned by GetLocations keeps showing what it showed when it was
-returned (no duplicated / lost / torn entries)" is FALSE of the model and of the code (known finding
-GetLocations/returned-slice-shows-duplicate-after-delete): `deleteLocation` shifts the tail inside the
-shared backing array. -/
+"A slice returned by GetLocations keeps showing what it showed when it was returned (no duplicated /
+lost / torn entries), whatever is added or removed later."  This was FALSE before the repair of
+`deleteLocation` in /repo (finding GetLocations/returned-slice-shows-duplicate-after-delete, fixed): the
+in-place delete shifted the tail inside the backing array the reader held.  The pre-repair operator is
+kept in the model as `Cell.delInPlace` / `deleteLocationInPlace`; the witness below is about THAT
+operator, the theorem `readers_never_torn` about the code as it is now. -/
 
-theorem readers_never_torn_witness :
-    let a : Loc := ⟨"u1", "dc1"⟩; let b : Loc := ⟨"u2", "dc2"⟩; let c : Loc := ⟨"u3", "dc1"⟩
+/-- the pre-repair step function (in-place delete), for contrast only -/
+def applyOpInPlace (st : St) : Op → St
+  | .add v l => addLocation st v l
+  | .del v u => deleteLocationInPlace st v u
+  | .hold v => hold st v
+
+/-- what the pre-repair code did: the kept slice [u1 u2 u3] shows [u2 u3 u3] after u1 is removed (and a
+    following add overwrites the cell the reader still covers); the repaired step leaves it alone -/
+theorem inplace_delete_tears_witness :
+    let a : Loc := ⟨"u1", "dc1"⟩; let b : Loc := ⟨"u2", "dc2"⟩; let c : Loc := ⟨"u3", "dc1"⟩; let d : Loc := ⟨"u4", ""⟩
     peek (run [.add 1 a, .add 1 b, .add 1 c, .hold 1]) = [a, b, c] ∧
-    peek (run [.add 1 a, .add 1 b, .add 1 c, .hold 1, .del 1 "u1"]) = [b, c, c] := by decide
+    peek ([Op.add 1 a, .add 1 b, .add 1 c, .hold 1, .del 1 "u1"].foldl applyOpInPlace {}) = [b, c, c] ∧
+    peek ([Op.add 1 a, .add 1 b, .add 1 c, .hold 1, .del 1 "u1", .add 1 d].foldl applyOpInPlace {}) = [b, c, d] ∧
+    peek (run [.add 1 a, .add 1 b, .add 1 c, .hold 1, .del 1 "u1"]) = [a, b, c] ∧
+    peek (run [.add 1 a, .add 1 b, .add 1 c, .hold 1, .del 1 "u1", .add 1 d]) = [a, b, c] := by decide
 
-/-- no removal on that volume since the slice was returned -/
-def noDelOn (vid : Nat) : Op → Prop
-  | .del v _ => v ≠ vid
+/-- the repair does not change what lookups return: both deletes leave the same slice (they differ only in
+    WHERE the remaining entries live) -/
+theorem repair_keeps_lookup_results (c : Cell) (u : String) (h : WF c) :
+    (c.del u).1.view = (c.delInPlace u).view := by
+  rw [view_del c u h, view_delInPlace c u h]
+
+/-- the reader's slot is not re-used: no later `hold` (a later hold is ANOTHER returned slice; the theorem
+    then applies to that one).  This is the only condition on the later operations. -/
+def notHold : Op → Prop
   | .hold _ => False
-  | .add _ _ => True
+  | _ => True
 
 /-- what the reader is entitled to: the slice still shows `snap` -/
 def HeldShows (st : St) (vid : Nat) (snap : List Loc) : Prop :=
@@ -189,66 +208,137 @@ def HeldShows (st : St) (vid : Nat) (snap : List Loc) : Prop :=
     | some a => a.take h.len = snap
     | none => ∃ c, st.vids vid = some c ∧ c.arr.take h.len = snap ∧ h.len ≤ c.len ∧ WF c
 
-theorem heldShows_step (st : St) (vid : Nat) (snap : List Loc) (op : Op) (hop : noDelOn vid op)
-    (hs : HeldShows st vid snap) : HeldShows (applyOp st op) vid snap := by
+theorem freezeHeld_other (h : Held) (realloc : Bool) (v : Nat) (old : List Loc) (hne : ¬ h.vid = v) :
+    freezeHeld (some h) realloc v old = some h := by
+  simp [freezeHeld, hne]
+
+theorem freezeHeld_frozen (h : Held) (realloc : Bool) (v : Nat) (old a : List Loc) (hf : h.frozen = some a) :
+    freezeHeld (some h) realloc v old = some h := by
+  simp [freezeHeld, hf]
+
+theorem freezeHeld_false (h : Held) (v : Nat) (old : List Loc) :
+    freezeHeld (some h) false v old = some h := by
+  simp [freezeHeld]
+
+theorem freezeHeld_true (h : Held) (old : List Loc) (hf : h.frozen = none) :
+    freezeHeld (some h) true h.vid old = some { h with frozen := some old } := by
+  simp [freezeHeld, hf]
+
+theorem addLocation_held (st : St) (v : Nat) (loc : Loc) :
+    (addLocation st v loc).held =
+      match st.vids v with
+      | none => st.held
+      | some c => freezeHeld st.held (c.add loc).2 v c.arr := by
+  unfold addLocation; cases st.vids v <;> rfl
+
+theorem deleteLocation_held (st : St) (v : Nat) (u : String) :
+    (deleteLocation st v u).held =
+      match st.vids v with
+      | none => st.held
+      | some c => freezeHeld st.held (c.del u).2 v c.arr := by
+  unfold deleteLocation; cases st.vids v <;> rfl
+
+/-- a step on ANOTHER volume, or on the reader's volume after its array was left behind, changes nothing
+    the reader sees; a step on the reader's live array either leaves the covered cells alone (in-place
+    add, no-op) or re-allocates and leaves the old array to the reader (growing add, delete) -/
+theorem heldShows_update (st : St) (vid : Nat) (snap : List Loc) (v : Nat) (st' : St) (c0 : Cell)
+    (upd : Cell → Cell × Bool) (hc0 : st.vids v = some c0)
+    (hvids : ∀ w, st'.vids w = if w = v then some (upd c0).1 else st.vids w)
+    (hheld : st'.held = freezeHeld st.held (upd c0).2 v c0.arr)
+    (hupd : ∀ c n, WF c → n ≤ c.len → (upd c).2 = false →
+      WF (upd c).1 ∧ n ≤ (upd c).1.len ∧ (upd c).1.arr.take n = c.arr.take n)
+    (hs : HeldShows st vid snap) : HeldShows st' vid snap := by
   obtain ⟨h, hh, hv, hm⟩ := hs
+  rw [hh] at hheld
+  by_cases hvv : v = vid
+  · subst hvv
+    cases hf : h.frozen with
+    | some a =>
+      rw [freezeHeld_frozen h _ _ _ a hf] at hheld
+      exact ⟨h, hheld, hv, by simpa [hf] using hm⟩
+    | none =>
+      simp only [hf] at hm
+      obtain ⟨c, hc, htake, hlen, hw⟩ := hm
+      rw [hc0] at hc; cases hc
+      cases hr : (upd c0).2 with
+      | true =>
+        rw [hr, ← hv, freezeHeld_true h c0.arr hf] at hheld
+        exact ⟨{ h with frozen := some c0.arr }, hheld, hv, htake⟩
+      | false =>
+        rw [hr, freezeHeld_false] at hheld
+        obtain ⟨hw', hlen', htake'⟩ := hupd c0 h.len hw hlen hr
+        refine ⟨h, hheld, hv, ?_⟩
+        simp only [hf]
+        exact ⟨(upd c0).1, by simp [hvids], by rw [htake', htake], hlen', hw'⟩
+  · have hne : ¬ h.vid = v := by rw [hv]; exact fun e => hvv e.symm
+    rw [freezeHeld_other h _ _ _ hne] at hheld
+    refine ⟨h, hheld, hv, ?_⟩
+    cases hf : h.frozen with
+    | some a => simpa [hf] using hm
+    | none =>
+      simp only [hf] at hm ⊢
+      obtain ⟨c, hc, rest⟩ := hm
+      refine ⟨c, ?_, rest⟩
+      have : ¬ vid = v := fun e => hvv e.symm
+      simp [hvids, this, hc]
+
+/-- the first announcement of a volume creates a new entry: no returned slice lives there -/
+theorem heldShows_newvol (st : St) (vid : Nat) (snap : List Loc) (v : Nat) (st' : St) (x : Cell)
+    (hc0 : st.vids v = none)
+    (hvids : ∀ w, st'.vids w = if w = v then some x else st.vids w) (hheld : st'.held = st.held)
+    (hs : HeldShows st vid snap) : HeldShows st' vid snap := by
+  obtain ⟨h, hh, hv, hm⟩ := hs
+  refine ⟨h, by rw [hheld, hh], hv, ?_⟩
+  cases hf : h.frozen with
+  | some a => simpa [hf] using hm
+  | none =>
+    simp only [hf] at hm ⊢
+    obtain ⟨c, hc, rest⟩ := hm
+    refine ⟨c, ?_, rest⟩
+    have : ¬ vid = v := by intro e; subst e; simp [hc0] at hc
+    simp [hvids, this, hc]
+
+theorem add_inplace_keeps (c : Cell) (loc : Loc) (n : Nat) (hw : WF c) (hn : n ≤ c.len) (hr : (c.add loc).2 = false) :
+    WF (c.add loc).1 ∧ n ≤ (c.add loc).1.len ∧ (c.add loc).1.arr.take n = c.arr.take n := by
+  refine ⟨wf_add c loc hw, ?_⟩
+  unfold Cell.add at *
+  by_cases hu : hasUrl c.view loc.url = true
+  · simp [hu, hn]
+  · simp only [hu, Bool.false_eq_true, if_false] at hr ⊢
+    by_cases hl : c.len < c.arr.length
+    · simp only [hl, if_true]
+      exact ⟨by omega, take_set_of_le _ _ _ _ hn⟩
+    · simp [hl] at hr
+
+theorem del_noop_keeps (c : Cell) (u : String) (n : Nat) (hw : WF c) (hn : n ≤ c.len) (hr : (c.del u).2 = false) :
+    WF (c.del u).1 ∧ n ≤ (c.del u).1.len ∧ (c.del u).1.arr.take n = c.arr.take n := by
+  rw [del_noop c u hr]; exact ⟨hw, hn, rfl⟩
+
+theorem heldShows_step (st : St) (vid : Nat) (snap : List Loc) (op : Op) (hop : notHold op)
+    (hs : HeldShows st vid snap) : HeldShows (applyOp st op) vid snap := by
   cases op with
-  | hold v => exact absurd hop (by simp [noDelOn])
+  | hold v => exact absurd hop (by simp [notHold])
   | del v u =>
-    simp only [noDelOn] at hop
-    refine ⟨h, ?_, hv, ?_⟩
-    · simp only [applyOp, deleteLocation]; cases st.vids v <;> simp [hh]
-    · cases hf : h.frozen with
-      | some a => simpa [hf] using hm
-      | none =>
-        simp only [hf] at hm ⊢
-        obtain ⟨c, hc, rest⟩ := hm
-        refine ⟨c, ?_, rest⟩
-        simp only [applyOp, deleteLocation_vids]
-        have : ¬ vid = v := fun e => hop e.symm
-        simp [this, hc]
+    cases hc : st.vids v with
+    | none =>
+      have : applyOp st (.del v u) = st := by simp [applyOp, deleteLocation, hc]
+      rw [this]; exact hs
+    | some c0 =>
+      refine heldShows_update st vid snap v _ c0 (fun c => c.del u) hc (fun w => ?_) ?_
+        (fun c n hw hn hr => del_noop_keeps c u n hw hn hr) hs
+      · simp only [applyOp, deleteLocation_vids, hc, Option.map_some]
+      · simp only [applyOp, deleteLocation_held, hc]
   | add v loc =>
-    by_cases hvv : v = vid
-    · subst hvv
-      cases hf : h.frozen with
-      | some a =>
-        refine ⟨h, ?_, hv, by simpa [hf] using hm⟩
-        simp only [applyOp, addLocation]
-        cases st.vids v <;> simp [hh, hf]
-      | none =>
-        simp only [hf] at hm
-        obtain ⟨c, hc, htake, hlen, hw⟩ := hm
-        simp only [applyOp, addLocation, hc, hh]
-        unfold Cell.add
-        by_cases hu : hasUrl c.view loc.url = true
-        · refine ⟨h, by simp [hu], hv, ?_⟩
-          simp only [hf]
-          exact ⟨c, by simp [hu], htake, hlen, hw⟩
-        · simp only [hu, Bool.false_eq_true, if_false]
-          by_cases hl : c.len < c.arr.length
-          · refine ⟨h, by simp [hl], hv, ?_⟩
-            simp only [hf]
-            refine ⟨{ arr := c.arr.set c.len loc, len := c.len + 1 }, by simp [hl], ?_, by simp; omega, ?_⟩
-            · simp only; rw [take_set_of_le _ _ _ _ hlen]; exact htake
-            · simp [WF]; omega
-          · refine ⟨{ h with frozen := some c.arr }, by simp [hl, hv, hf], hv, ?_⟩
-            simp only
-            exact htake
-    · refine ⟨h, ?_, hv, ?_⟩
-      · simp only [applyOp, addLocation]
-        have : ¬ h.vid = v := by rw [hv]; exact fun e => hvv e.symm
-        cases hc : st.vids v with
-        | none => simp [hh]
-        | some c => simp [hh, this]
-      · cases hf : h.frozen with
-        | some a => simpa [hf] using hm
-        | none =>
-          simp only [hf] at hm ⊢
-          obtain ⟨c, hc, rest⟩ := hm
-          refine ⟨c, ?_, rest⟩
-          simp only [applyOp, addLocation_vids]
-          have : ¬ vid = v := fun e => hvv e.symm
-          simp [this, hc]
+    cases hc : st.vids v with
+    | none =>
+      refine heldShows_newvol st vid snap v _ { arr := [loc], len := 1 } hc (fun w => ?_) ?_ hs
+      · simp only [applyOp, addLocation_vids, hc]
+      · simp only [applyOp, addLocation_held, hc]
+    | some c0 =>
+      refine heldShows_update st vid snap v _ c0 (fun c => c.add loc) hc (fun w => ?_) ?_
+        (fun c n hw hn hr => add_inplace_keeps c loc n hw hn hr) hs
+      · simp only [applyOp, addLocation_vids, hc]
+      · simp only [applyOp, addLocation_held, hc]
 
 theorem peek_of_heldShows (st : St) (vid : Nat) (snap : List Loc) (hs : HeldShows st vid snap) : peek st = snap := by
   obtain ⟨h, hh, hv, hm⟩ := hs
@@ -260,10 +350,11 @@ theorem peek_of_heldShows (st : St) (vid : Nat) (snap : List Loc) (hs : HeldShow
     obtain ⟨c, hc, htake, _⟩ := hm
     simp [hv, hc, htake]
 
-/-- PARTIAL (hypothesis = the excluded class): as long as no location of that volume is removed, a kept
-    slice keeps showing exactly what `GetLocations` returned — additions never touch the cells it covers -/
-theorem readers_never_torn_partial (pre post : List Op) (vid : Nat) (snap : List Loc)
-    (hfound : getLocations (run pre) vid = some snap) (hpost : ∀ op ∈ post, noDelOn vid op) :
+/-- MAIN (readers keeping a returned slice; FULL since the repair): whatever is added or removed later —
+    on that volume or any other, in place or with re-allocation — a kept slice keeps showing exactly what
+    `GetLocations` returned: later updates never write a cell it covers -/
+theorem readers_never_torn (pre post : List Op) (vid : Nat) (snap : List Loc)
+    (hfound : getLocations (run pre) vid = some snap) (hpost : ∀ op ∈ post, notHold op) :
     peek (run (pre ++ [.hold vid] ++ post)) = snap := by
   apply peek_of_heldShows _ vid
   simp only [run, List.foldl_append, List.foldl_cons, List.foldl_nil]
@@ -286,8 +377,17 @@ theorem readers_never_torn_partial (pre post : List Op) (vid : Nat) (snap : List
     simp only [List.foldl_cons]
     exact ih (fun o ho => hpost o (List.mem_cons_of_mem _ ho)) _ (heldShows_step st1 vid snap op (hpost op (List.mem_cons_self ..)) h0)
 
-example : ∀ op ∈ [Op.add 1 ⟨"u4", ""⟩, Op.del 2 "u1"], noDelOn 1 op := by
-  intro op h; simp at h; rcases h with rfl | rfl <;> simp [noDelOn]
+/-- non-vacuity: removals on the reader's own volume are allowed -/
+example : ∀ op ∈ [Op.add 1 ⟨"u4", ""⟩, Op.del 1 "u1", Op.del 2 "u1"], notHold op := by
+  intro op h; simp at h; rcases h with rfl | rfl | rfl <;> simp [notHold]
+
+/-- … in particular a kept slice never shows a url twice and never loses an entry (what the judge
+    `heldJudge` checks on the implementation's answers) -/
+theorem readers_never_see_duplicate (pre post : List Op) (vid : Nat) (snap : List Loc)
+    (hfound : getLocations (run pre) vid = some snap) (hpost : ∀ op ∈ post, notHold op) :
+    ((peek (run (pre ++ [.hold vid] ++ post))).map (·.url)).Nodup := by
+  rw [readers_never_torn pre post vid snap hfound hpost]
+  exact each_location_once pre vid snap hfound
 
 /-! ### concurrent writers: atomic steps versus split steps
 
@@ -428,9 +528,16 @@ theorem bridge_addLocation_atomic_pinned : SwV.Gen.C35.src_addLocation = "ad5c92
 /-- the duplicate check is still inside `addLocation` itself -/
 theorem bridge_addLocation_dupcheck_inside : SwV.Gen.C35.addLocation_dupCheck = "loc.Url == location.Url" := by decide
 
+/-- `deleteLocation` as repaired (fresh array, see `Cell.del`) and `GetLocations` (hands out the map's
+    slice itself) are the versions the model was written from -/
 theorem bridge_delete_get_pinned :
-    SwV.Gen.C35.src_deleteLocation = "04687eecb4eb521b" ∧ SwV.Gen.C35.src_GetLocations = "c5b85c4768527a6c" ∧
+    SwV.Gen.C35.src_deleteLocation = "070a69660e6a7a55" ∧ SwV.Gen.C35.src_GetLocations = "c5b85c4768527a6c" ∧
     SwV.Gen.C35.deleteLocation_match = "loc.Url == location.Url" := by decide
+
+/-- the shortened list is built in a new array of exactly len-1 cells (`Cell.del`: arr = the erased view, no
+    spare cell); an in-place `append(locations[0:i], …)` no longer has this statement and breaks the obligation -/
+theorem bridge_deleteLocation_fresh_array :
+    SwV.Gen.C35.deleteLocation_freshArray = "remaining := make([]Location, 0, len(locations)-1)" := by decide
 
 example : ([Op.add 1 ⟨"u1", ""⟩, Op.add 1 ⟨"u1", ""⟩] : List Op).Perm [[Op.add 1 ⟨"u1", ""⟩], [Op.add 1 ⟨"u1", ""⟩]].flatten := by
   simp
